@@ -243,6 +243,9 @@ pub struct Flat {
     pub opt_s: Option<String>,
     /// a field whose name collides with the special name
     pub size: i64,
+    /// a field that needs a raw identifier in Rust; serde calls it `type`
+    #[serde(default)]
+    pub r#type: i64,
 }
 
 #[derive(ObjectView, ValueView, Serialize, Deserialize, Debug, Clone, PartialEq)]
@@ -287,7 +290,7 @@ pub struct SerdeOnly {
 }
 
 fn text() -> BoxedStrategy<String> {
-    prop_oneof![3 => proptest::sample::select(vec!["", " ", "a", "Hello", "é", "1", "true", "x y", "\n"]).prop_map(String::from), 1 => crate::gen::text(6)]
+    prop_oneof![3 => proptest::sample::select(vec!["", " ", "a", "Hello", "é", "1", "true", "x y", "\n", "\u{a0}", "\u{2028}\u{3000}", " \u{85}\t", "\u{b}", "\u{a0}x", "\u{feff}"]).prop_map(String::from), 1 => crate::gen::text(6)]
         .prop_filter("no date-looking", |s| liquid::model::DateTime::from_str(s).is_none() && Date::from_str(s).is_none())
         .boxed()
 }
@@ -307,7 +310,7 @@ fn flat() -> BoxedStrategy<Flat> {
         proptest::option::of(text()),
         -3i64..30,
     )
-        .prop_map(|(b, i, small, f, s, k, arr, strs, opt, opt_s, size)| Flat { b, i, small, f, s, k: KString::from_string(k), arr, strs, opt, opt_s, size })
+        .prop_map(|(b, i, small, f, s, k, arr, strs, opt, opt_s, size)| Flat { b, i, small, f, s, k: KString::from_string(k), arr, strs, opt, opt_s, size, r#type: size + 1 })
         .boxed()
 }
 
